@@ -392,7 +392,7 @@ def run(ctx):
         if not spec.get("uni"):
             spec["uni"] = list(range(len(spec["verts"])))
         specs.append(spec)
-    n_rand = 170 if quick else 300
+    n_rand = ctx.n(170 if quick else 300)
     n = 0
     for i in range(len(specs) + n_rand):
         if i < len(specs):
